@@ -61,6 +61,7 @@ type job struct {
 	verdict string
 	errKind string
 	simple  bool
+	traits  string // whole-document formats: wholeDocTraits of the document ("" = none)
 }
 
 func (j *job) line() string {
@@ -104,11 +105,18 @@ func process(j *job) {
 	}
 	on0 := decode(c0, j.doc)
 	j.viol = append(j.viol, checkDoc(c0, j.doc, on0)...)
+	if j.format == "rdfxml" {
+		// the oracle's own XML scanner against encoding/xml (xmlselfcheck.go)
+		if m := xmlScanSelfCheck(j.doc); m != "" {
+			j.viol.add("oracle-selfcheck", "xmlscan", "HARNESS defect, not a finding about the repository: %s", m)
+		}
+	}
 	defer func() {
 		// whole-document formats: violations of the generic classes are keyed by the root-cause
 		// traits of the document (wholeDocTraits), "" when it has none
 		if !streaming[j.format] {
 			tr := wholeDocTraits(j.format, j.doc)
+			j.traits = tr
 			for i := range j.viol {
 				if j.viol[i].sub == "" {
 					j.viol[i].sub = tr
@@ -274,13 +282,15 @@ func main() { os.Exit(realMain()) }
 
 func realMain() int {
 	flag.Parse()
+	flush := filterStderr()
+	defer flush(nil)
 	if !*nomodel {
 		p, cleanup := privateDriver(*driver)
 		*driver = p
 		defer cleanup()
 	}
 	seed := vh.SeedFromEnv()
-	rep := vh.NewReport("C16", *tier, seed, "Documents for Turtle, TriG, RDF/JSON, RDF/XML, JSON-LD, RDFa, Microdata, HTML-embedded JSON-LD and the combined HTML decoder: every document of the W3C suites shipped in the repository (thorough tier; a seeded sample of 400 per format in the quick tier); hand-written corner documents; grammar-directed documents (multi-line, CRLF, lone CR, multi-byte and astral characters, comments, several statements per line, prefixed names, relative references, blank node labels, long strings, numeric/boolean shorthand, `a`, `[ ]`, `( )`, graph names; XML/HTML character references, CDATA, nested elements, property attributes, reification, collections; JSON-LD contexts, lists, @reverse, @graph, native numbers); byte-level mutations and truncations of generated and corpus documents for Turtle, TriG, RDF/JSON, JSON-LD and RDF/XML (RDF/XML repaired to valid UTF-8: cursorio.TextWriter panics on ill-formed UTF-8, C05 finding D28). HTML family (RDFa, Microdata, HTML-embedded JSON-LD, combined decoder): corpus, corner and generated documents only, NO byte-level mutation (the third-party position bookkeeping keeps producing new failure shapes on tag soup; C16X_SOUP=1 turns it on as a development aid), so the search over malformed markup is incomplete by construction. Each document is decoded with capture off, capture on (initial offset unset / explicit zero) and capture on with a random non-zero initial offset (byte<2000, line<60, column<90); streaming decoders additionally with a reader ending in an injected error. Non-trivial = at least one statement with a range, or an error carrying an offset. Token layer (T3): single tokens with varied continuations, mutations and every-prefix truncations for the seven producers of both packages against the Lean model.")
+	rep := vh.NewReport("C16", *tier, seed, "Documents for Turtle, TriG, RDF/JSON, RDF/XML, JSON-LD, RDFa, Microdata, HTML-embedded JSON-LD and the combined HTML decoder: every document of the W3C suites shipped in the repository (thorough tier; a seeded sample of 400 per format in the quick tier); hand-written corner documents; grammar-directed documents (multi-line, CRLF, lone CR, multi-byte and astral characters, comments, several statements per line, prefixed names, relative references, blank node labels, long strings, numeric/boolean shorthand, `a`, `[ ]`, `( )`, graph names; XML/HTML character references, CDATA, nested elements, property attributes, reification, collections; JSON-LD contexts, lists, @reverse, @graph, native numbers); byte-level mutations and truncations of generated and corpus documents for Turtle, TriG, RDF/JSON, JSON-LD and RDF/XML (RDF/XML repaired to valid UTF-8: cursorio.TextWriter panics on ill-formed UTF-8, C05 finding D28). HTML family (RDFa, Microdata, HTML-embedded JSON-LD, combined decoder): corpus, corner and generated documents only, NO byte-level mutation (the third-party position bookkeeping keeps producing new failure shapes on tag soup; C16X_SOUP=1 turns it on as a development aid), so the search over malformed markup is incomplete by construction. Each document is decoded with capture off, capture on (initial offset unset / explicit zero) and capture on with a random non-zero initial offset (byte<2000, line<60, column<90); streaming decoders additionally with a reader ending in an injected error. RDF/XML: on every document the oracle's own XML scanner is compared with encoding/xml (token spans, attribute names and values up to encoding/xml's first error; a difference is reported as class oracle-selfcheck and fails the check). Histograms trait-free:<format>:<bool> say how many whole-document inputs carry none of the root-cause traits that key the known findings (violations on documents with a trait are attributed to that finding). Non-trivial = at least one statement with a range, or an error carrying an offset. Token layer (T3): single tokens with varied continuations, mutations and every-prefix truncations for the seven producers of both packages against the Lean model.")
 	fs, err := vh.LoadFindings(*findings)
 	if err != nil {
 		fmt.Fprintln(os.Stderr, "findings:", err)
@@ -316,6 +326,14 @@ func realMain() int {
 			rep.Count("errpos:" + j.errKind)
 			rep.Count(fmt.Sprintf("simple:%v", j.simple))
 			rep.Count(fmt.Sprintf("stmts:%s", bucket(j.stmts)))
+			if !streaming[j.format] {
+				// how much of the whole-document search is on documents WITHOUT a known root-cause trait
+				// (violations on documents with a trait are attributed to the trait's known finding)
+				rep.Count(fmt.Sprintf("trait-free:%s:%v", j.format, j.traits == ""))
+				if j.traits == "" && j.ranges > 0 {
+					rep.Count("trait-free-with-ranges:" + j.format)
+				}
+			}
 			seenHere := map[string]bool{}
 			for _, v := range j.viol {
 				if f, ok := matchKnown(known, j.format, v); ok {
@@ -510,6 +528,7 @@ func realMain() int {
 		failures += f
 	}
 	rep.Compared = compared
+	flush(rep)
 	if rep.Cases == nil {
 		rep.Cases = []vh.Case{}
 	}
